@@ -88,34 +88,7 @@ def run(db, cx):
                     "dedx_range": "written and read under the same eloss_ppid guard within the step"}
     w7("PhysicsTrackState", C + "PhysicsTrackView::operator=", is_init, phys_scratch,
        same_class([C + "PhysicsTrackView::", C + "PhysicsStepView::"]), "stale physics data")
-    pre = [f for f in db.get(D + "PreStepExecutor::operator()")]
-    cx.require(pre, "anchor PreStepExecutor not found")
-    for f in pre:
-        brs = f.branch_blocks(lambda c, _b: c.get("renum", "").endswith("TrackStatus::inactive"))
-        cx.require(brs, "PreStepExecutor no longer tests for inactive slots")
-        br = brs[0]
-        c = f.blocks[br]["cond"]
-        tgt = f.blocks[br]["succ"][f.cond_polarity_edge(br, c["op"] != "==")]
-        for meth in ("reset_energy_deposition", "secondaries", "element"):
-            okp, path = f.must_pass(
-                lambda e, m=meth: e["e"] == "call" and e["callee"] == C + "PhysicsStepView::" + m
-                and (m == "reset_energy_deposition" or len(e.get("args", [])) == 1),
-                start=(tgt, -1))
-            cx.ob("C06.1-scratch-reset", "PreStepExecutor resets PhysicsStepView::%s on every "
-                  "active path" % meth, okp, "must-pass from the not-inactive edge", short(f.loc),
-                  path=f.path_locs(path),
-                  why="step-local scratch that survives into the next step (or next occupant) "
-                      "makes results depend on history")
-        # macro_xs: calc_physics_step_limit must run for every non-errored active track
-        ebr = f.branch_blocks(lambda c, _b: c.get("renum", "").endswith("TrackStatus::errored"))
-        if ebr:
-            c2 = f.blocks[ebr[0]]["cond"]
-            t2 = f.blocks[ebr[0]]["succ"][f.cond_polarity_edge(ebr[0], c2["op"] != "==")]
-            okp, path = f.must_pass(lambda e: e["e"] == "call" and e["callee"] == C + "calc_physics_step_limit",
-                                    start=(t2, -1))
-            cx.ob("C06.1-scratch-reset", "PreStepExecutor recomputes the step limit / macro xs",
-                  okp, "calc_physics_step_limit on every non-errored path", short(f.loc),
-                  path=f.path_locs(path))
+    shared.prestep_scratch_reset(db, cx, "C06.1-scratch-reset")
     for f in db.get(C + "calc_physics_step_limit"):
         tw = trans_writes(db, f, acc, 2)
         ok = C + "PhysicsTrackState::macro_xs" in tw
